@@ -81,6 +81,7 @@ fn record_hook(key: u64) { unsafe { HOOK_CALLS += 1; HOOK_LAST_KEY = key; } }
 #[kani::proof]
 #[kani::unwind(6)]
 fn c05_cache_weight_step() {
+    unsafe { vs::MONITOR = true; }
     let stats = stk::vk_fresh();
     let a = vk_any_astate(if sup::cfg::TIER_THOROUGH { None } else { Some(2) }, false);
     let cw = vk_cache_weight(1, 0, stats.clone());
@@ -170,6 +171,7 @@ fn c05_cache_weight_step() {
     kani::cover!(op == 0 && max - used0 == w, "add exactly filling the cache");
     kani::cover!(op == 2 && present[target] && present[(target + 1) % POOL], "delete one of several");
     kani::cover!(op == 0 && max == i64::MAX, "limit = i64::MAX");
+    vs::edge_covers();
     core::mem::forget(cw);
 }
 
